@@ -277,23 +277,40 @@ theorem foldKeys_setBy_nodup (f : String → String) (k : String) (v : α) :
       · apply c; simp [folded, ← hfx, hxk]
       · exact h.1 (List.mem_map.mpr ⟨x, hxr, hfx⟩)
 
+theorem eraseBy_of_no_match {f : String → String} {k : String} :
+    ∀ env : Env α, f k ∉ (keys env).map f → eraseBy (folded f) k env = env
+  | [], _ => rfl
+  | (k', v) :: r, h => by
+    simp only [keys_cons, List.map_cons, List.mem_cons, not_or] at h
+    have c : folded f k' k = false := by
+      simp only [folded]
+      have : f k' ≠ f k := fun e => h.1 e.symm
+      simp [this]
+    simp only [eraseBy, c, Bool.false_eq_true, ↓reduceIte, eraseBy_of_no_match r h.2]
+
 theorem foldKeys_renameBy_nodup (f : String → String) (k k2 : String) :
-    ∀ env : Env α, ((keys env).map f).Nodup → f k2 ∉ (keys env).map f →
+    ∀ env : Env α, ((keys env).map f).Nodup → hasBy (folded f) k2 (eraseBy (folded f) k env) = false →
       ((keys (renameBy (folded f) k k2 env)).map f).Nodup
   | [], _, _ => by simp [renameBy, keys]
   | (k', v') :: r, h, hn => by
     simp only [keys_cons, List.map_cons, List.nodup_cons] at h
-    simp only [keys_cons, List.map_cons, List.mem_cons, not_or] at hn
-    by_cases c : folded f k' k = true
-    · simp only [renameBy, c, if_true, keys_cons, List.map_cons, List.nodup_cons]
-      exact ⟨hn.2, h.2⟩
-    · have ih := foldKeys_renameBy_nodup f k k2 r h.2 hn.2
+    cases c : folded f k' k with
+    | true =>
+      have hfk : f k' = f k := by simpa [folded] using c
+      have her : eraseBy (folded f) k r = r := eraseBy_of_no_match r (by rw [← hfk]; exact h.1)
+      simp only [eraseBy, c, if_true, her] at hn
+      simp only [renameBy, c, if_true, keys_cons, List.map_cons, List.nodup_cons]
+      exact ⟨hasBy_false_not_mem r hn, h.2⟩
+    | false =>
+      simp only [eraseBy, c, Bool.false_eq_true, ↓reduceIte, hasBy, Bool.or_eq_false_iff] at hn
+      have ih := foldKeys_renameBy_nodup f k k2 r h.2 hn.2
       simp only [renameBy, c, Bool.false_eq_true, ↓reduceIte, keys_cons, List.map_cons, List.nodup_cons]
       refine ⟨?_, ih⟩
       intro hm
       rcases List.mem_map.mp hm with ⟨x, hx, hfx⟩
       rcases keys_renameBy (folded f) k k2 r x hx with hxk | hxr
-      · apply hn.1; rw [← hfx, hxk]
+      · have : folded f k' k2 = true := by simp [folded, ← hfx, hxk]
+        rw [this] at hn; exact Bool.noConfusion hn.1
       · exact h.1 (List.mem_map.mpr ⟨x, hxr, hfx⟩)
 
 theorem foldKeys_step_nodup (f : String → String) (env : Env α) (op : Op α)
@@ -311,8 +328,8 @@ theorem foldKeys_step_nodup (f : String → String) (env : Env α) (op : Op α)
     · split
       · exact h
       · rename_i _ hh
-        have : hasBy (folded f) k2 env = false := by simpa using hh
-        exact foldKeys_renameBy_nodup f k k2 env h (hasBy_false_not_mem env this)
+        have : hasBy (folded f) k2 (eraseBy (folded f) k env) = false := by simpa using hh
+        exact foldKeys_renameBy_nodup f k k2 env h this
     · exact h
   | lookup k => exact h
 
